@@ -45,9 +45,41 @@ def hsoptOp (args : List String) : String :=
       | _ => "bad-op"
   | _ => "bad-op"
 
+def suitesArg (s : String) : Option (Option (List Suite)) :=
+  if s = "default" then some none else parseSuitesR s
+
+def suitesStr (l : List Suite) : String :=
+  if l.isEmpty then "none" else "+".intercalate (l.map hex4)
+
+/-- `gmoffer <list|default>`: the cipher suites of the ClientHello of a GMSSL client configured with that
+    `CipherSuites`, in order (harness/c06offer.go reads them off the wire) -/
+def gmofferOp (args : List String) : String :=
+  match args with
+  | [cs] => match suitesArg cs with
+    | some cs => "offer=" ++ suitesStr (gmOffer cs)
+    | none => "bad-op"
+  | _ => "bad-op"
+
+/-- `gmpeerpref <list|default> <pref>`: an independent server with preference order <pref> selects the first suite
+    of its order that the hello offers; does the client complete its key exchange for that suite? -/
+def gmpeerprefOp (args : List String) : String :=
+  match args with
+  | [cs, pref] => match suitesArg cs, parseSuitesR pref with
+    | some cs, some (some pref) =>
+      match peerSelect pref (gmOffer cs) with
+      | none => "sel=none"
+      | some s => match clientMeets (gmOffer cs) s with
+        | .proceeds => s!"sel={hex4 s} client=ok"
+        | .refusesKx => s!"sel={hex4 s} client=refuses-key-exchange"
+        | .unconfigured => s!"sel={hex4 s} client=unconfigured"
+    | _, _ => "bad-op"
+  | _ => "bad-op"
+
 def negotiateDispatch (toks : List String) : Option String :=
   match toks with
   | "hs" :: rest => some (hsOp rest)
+  | "gmoffer" :: rest => some (gmofferOp rest)
+  | "gmpeerpref" :: rest => some (gmpeerprefOp rest)
   | "hsopt" :: rest => some (hsoptOp rest)
   | "hsrot" :: rest => some (hsOp rest)   -- three connections with a ticket-key rotation in between: one verdict
   | "hspol" :: rest =>
